@@ -611,6 +611,12 @@ int BaseKillPlugin::tryToKillPids(const std::vector<int>& pids) {
   int nrKilled = 0;
 
   for (int pid : pids) {
+    // cgroup.procs shows 0 for a process in a pid namespace we cannot see, and
+    // kill(2) gives pid <= 0 a process-group meaning: never pass it one.
+    if (pid <= 0) {
+      buf << " " << pid << "[skipped]";
+      continue;
+    }
     auto commPath = std::string("/proc/") + std::to_string(pid) + "/comm";
     auto comm = Fs::readFileByLine(commPath);
 
